@@ -76,6 +76,33 @@ Definition rec_own (M : ec_prims) (sg : signature) (dg : bytes) (pk : pubkey) : 
   | Err => "E" | Panic => "P"
   end.
 
+Definition addr_eqb (x y : Keys.address) : bool :=
+  byte_eqb (Keys.a_prefix x) (Keys.a_prefix y) && bytes_eqb (Keys.a_hash x) (Keys.a_hash y)
+  && bytes_eqb (Keys.a_checksum x) (Keys.a_checksum y).
+
+Definition routes_verify (M : ec_prims) (dg : bytes) (sg : signature) (sk : privkey) (p : byte) (a : Keys.address) : string :=
+  let P := p_pubkey M (sk_d sk) in
+  let C := {| Keys.ci_pubkey := fun _ => P; Keys.ci_decode := sec1_decode_fast; Keys.ci_lift := lift_x_fast |} in
+  let kk := {| Keys.sk_scalar := sk_d sk; Keys.sk_compressed := sk_compressed sk |} in
+  let re (x : outcome Keys.address) := do y <- x; Keys.addr_set_chain y p in
+  let via_method := Keys.to_public_key C kk in                       (* k.to_public_key() *)
+  let via_assoc := Ok (Keys.pub_from_private C kk) in                (* PublicKey::from_private_key(&k) *)
+  let routes : list (outcome Keys.address) :=
+    [ re (do q <- via_method; Keys.pub_to_address q);
+      re (do q <- via_assoc; Keys.pub_to_address q);
+      re (do q <- via_method; Keys.addr_from_pubkey q);
+      re (do q <- via_assoc; Keys.addr_from_pubkey q);
+      re (Keys.addr_from_pubkey_hash (hash_160 (Keys.pk_point (Keys.pub_from_private C kk))));
+      Keys.addr_from_string (Keys.addr_to_string a);
+      re (do q0 <- via_method; do q <- Keys.pub_from_hex C (hex_of_bytes (Keys.pk_point q0)); Keys.pub_to_address q) ] in
+  let one (r : outcome Keys.address) : string * bool :=
+    match r with
+    | Ok x => (show_v (verify_with_digest M dg sg x), addr_eqb x a)
+    | _ => ("N", false)
+    end in
+  let rs := map one routes in
+  fold_right (fun x acc => fst x +++ acc) "" rs +++ ";" +++ flag (forallb snd rs).
+
 Definition run_compact_verify (kb : bytes) (c : bool) (msg : bytes) (prefix : byte) : string :=
   match key_of kb c with
   | Ok sk =>
@@ -102,12 +129,15 @@ Definition run_compact_verify (kb : bytes) (c : bool) (msg : bytes) (prefix : by
                 (* Signature::recover_public_key_from_digest(digest computed by the driver) = the signer's key, in its form *)
                 +++ ";" +++ rec_own M sg (bsm_digest msg) pk
                 +++ ";" +++ match from_compact_impl cb with Ok sg' => rec_own M sg' (bsm_digest msg) pk | _ => "E" end
+                (* the signer's address through every public route (to_public_key / from_private_key x to_p2pkh_address /
+                   from_pubkey, from_pubkey_hash(hash_160(get_point)), from_string(to_string), from_hex(to_hex)), re-prefixed *)
+                +++ ";" +++ routes_verify M dg sg sk prefix a
             | Err => "ERR" | Panic => "PANIC"
             end
         | Err => "ERR" | Panic => "PANIC"
         end in
       out3 impl (match bsm_sign_spec (sk_d sk) c msg with
-                 | Some b => "OK:" +++ hex_of_bytes b +++ ";1;1;1;1;1;1;1" | None => "-" end) "-"
+                 | Some b => "OK:" +++ hex_of_bytes b +++ ";1;1;1;1;1;1;1;1111111;1" | None => "-" end) "-"
   | _ => out3 "ERR" "ERR" "-"
   end.
 
